@@ -160,7 +160,7 @@ func run(ci any, r *mon.Rec) {
 				r.Eval(1)
 				a := mon.Attrs{"fc": c.FC, "proto0": c.Proto == 0, "flag": flag}
 				if c.Proto != 0 || c.FC == 0 {
-					if cerr == nil || cerr == packet.ErrTCPDataTooShort {
+					if cerr == nil || errors.Is(cerr, packet.ErrTCPDataTooShort) { // (errors.Is: the way a caller tells "wait for more" from "not Modbus")
 						r.Violate(c, "non-modbus-not-refused", a, fmt.Sprintf("header % x: (%d, %v)", h, n, cerr))
 					}
 					continue
@@ -168,7 +168,7 @@ func run(ci any, r *mon.Rec) {
 				if cerr == nil && n != 6+l {
 					r.Violate(c, "accepted-length-wrong", a, fmt.Sprintf("header % x: n=%d want %d", h, n, 6+l))
 				}
-				if cerr == packet.ErrTCPDataTooShort {
+				if cerr != nil && errors.Is(cerr, packet.ErrTCPDataTooShort) {
 					r.Violate(c, "complete-header-too-short", a, fmt.Sprintf("header % x classified too short: server would wait forever", h))
 				}
 				if prevErr != nil && !flag {
